@@ -19,6 +19,11 @@ def setup():
         return _S
     with contextlib.redirect_stdout(io.StringIO()):
         from cyecca.models import quadrotor, rdd2, rdd2_loglinear
+        # a second vehicle was derived and customised earlier in the same process (its own default tables are written in place, as
+        # quadrotor.sim and the simulation script do): the vehicle derived next must still have the shipped defaults
+        other = quadrotor.derive_model()
+        for k_, v_ in (("m", 3.0), ("l_motor_0", 0.35), ("l_motor_1", 0.35), ("dir_motor_0", -other["p_defaults"]["dir_motor_0"]), ("dir_motor_1", -other["p_defaults"]["dir_motor_1"])):
+            other["p_defaults"][k_] = v_
         m = quadrotor.derive_model()
         eqs = {}
         for d in (rdd2.derive_attitude_rate_control, rdd2.derive_attitude_control, rdd2.derive_position_control, rdd2.derive_control_allocation):
